@@ -11,11 +11,11 @@ RULE = (
     "Hypothesis draws a harness function (7 signatures: defaults, keyword-only, **kwargs), a binding of parameters to values from the "
     "supported argument domain (None/bool/int incl. >2^64/float incl. NaN,inf,-0.0/str/date/datetime naive+aware/lists/str-keyed dicts/"
     "memento function references with chained partials), optional context args, 2-4 presentations of that binding (positional/keyword split, "
-    "keyword order, dict insertion order, chained partial prefixes, with_args on the reference) and a mutation of one bound value "
+    "keyword order, dict insertion order, chained partial prefixes - optionally deriving and discarding a sibling partial from every intermediate partial -, with_args on the reference) and a mutation of one bound value "
     "(type flip bool/int/float/str, date<->datetime at midnight, naive<->aware, list reorder, changed/added context arg). Oracles: all presentations "
     "give one arg_hash and one stored result (body runs once); arg_hash == an independent implementation of the documented algorithm "
     "(typed canonical JSON, sorted keys, SHA-256); what the body received re-hashes to the same key; the mutated binding is a miss and has a "
-    "different hash iff its canonical form differs; for a third of the cases the binding is also called from inside another memento function (caller with/without context args; nested call inheriting, "
+    "different hash iff its canonical form differs; for a third of the cases the binding is also called from inside another memento function (caller with/without context args, directly or through an intermediate function that attaches nothing; nested call inheriting, "
     "attaching an empty dict, or attaching its own dict) and the key recorded in the caller's invocations must equal the documented key under the effective context, and a direct call under that context is then served. Non-trivial = at least two genuinely different presentations, or a mutation differing only "
     "in type/zone/context; distinct by (function, value type shapes, presentation shapes, mutation kind)."
 )
@@ -73,6 +73,13 @@ def _present(case, p, binding_vals, ctx_vals, attach=True):
         pkw = {k: vals[k] for k in kwn}
         used.update(kwn)
         f = f.partial(*pargs, **pkw)
+        if p.get("sibling"):
+            # derive another partial from this one and throw it away: the one we keep must be unaffected
+            spare = [q for q in (afuncs.SIGS[case["fn"]][0] + afuncs.SIGS[case["fn"]][1]) if q not in binding_vals and q not in used]
+            if afuncs.SIGS[case["fn"]][3]:
+                spare.append("sib")
+            if spare:
+                f.partial(**{spare[0]: "sibling-value"})
     npos = p.get("npos", 0)
     pos = [vals[q] for q in pos_params[cursor:cursor + npos]]
     used.update(pos_params[cursor:cursor + npos])
@@ -207,13 +214,25 @@ def _nested(out, case, nst, binding_vals):
         if ov_vals is not None:
             f = f.with_context_args(ov_vals)
         return f(*pos, **kw)
-    rt.TABLE[("nest", k)] = thunk
+    depth = 2 if nst.get("depth") == 2 else 1
+    if depth == 2:
+        # caller (with the context) -> intermediate function (attaches nothing) -> the call under test
+        rt.TABLE[("nest2", k)] = thunk
+        rt.TABLE[("nest", k)] = lambda: afuncs.nest2(k)
+    else:
+        rt.TABLE[("nest", k)] = thunk
     inner = afuncs.FUNCS[case["fn"]]
     try:
         outer = afuncs.nest if outer_ctx is None else afuncs.nest.with_context_args(outer_ctx)
         outer(k)
         rt.take()
         mem = outer.memento(k)
+        if depth == 2:
+            mid = afuncs.nest2 if not outer_ctx else afuncs.nest2.with_context_args(outer_ctx)
+            mem = mid.memento(k)
+            if mem is None:
+                out.violation("the intermediate function's call is not stored under the context it inherited (%r)" % (outer_ctx,), symptom="nested-key-differs", attached="intermediate")
+                return
         invs = mem.invocation_metadata.invocations
         if len(invs) != 1:
             out.violation("caller recorded %d invocations for one nested call" % len(invs), symptom="nested-invocations")
@@ -229,7 +248,7 @@ def _nested(out, case, nst, binding_vals):
         if rt.take():
             out.violation("direct call under the effective context %r ran the body again after the nested call" % (eff,),
                           symptom="nested-result-not-shared")
-        out.labels.append("nested:" + ("inherit" if ov_vals is None else ("empty-override" if not ov_vals else "override")) + ("/ctx" if outer_ctx else "/noctx"))
+        out.labels.append("nested:" + ("inherit" if ov_vals is None else ("empty-override" if not ov_vals else "override")) + ("/ctx" if outer_ctx else "/noctx") + ("/depth2" if depth == 2 else ""))
     except Exception as e:
         sig = lib_exception_signature(e)
         if sig is None:
@@ -237,6 +256,7 @@ def _nested(out, case, nst, binding_vals):
         out.violation("nested call raised %r" % (e,), symptom="exception", **sig)
     finally:
         rt.TABLE.pop(("nest", k), None)
+        rt.TABLE.pop(("nest2", k), None)
 
 
 def _shape(b):
@@ -297,7 +317,7 @@ def strategy():
                     used_pos += np_
             kworder = draw(st.permutations(names))
             pres.append({"npos": total_pos - used_pos, "partial": partial, "kworder": list(kworder),
-                         "flip": draw(st.booleans())})
+                         "flip": draw(st.booleans()), "sibling": draw(st.booleans())})
         mutation = None
         if names and draw(st.sampled_from([True, True, True, True, True, False])):
             kind = draw(st.sampled_from(["type-flip", "date-datetime", "naive-aware", "value", "ctx", "reorder"]))
@@ -334,7 +354,7 @@ def strategy():
                 mutation = {"kind": "ctx", "ctx": c2}
         nested = None
         if draw(st.integers(0, 2)) == 0:
-            nested = {"outer_ctx": draw(A.ctx), "override": draw(st.sampled_from(["inherit", "inherit", "empty", "dict"])), "pres": draw(st.integers(0, 3))}
+            nested = {"outer_ctx": draw(A.ctx), "override": draw(st.sampled_from(["inherit", "inherit", "empty", "dict"])), "pres": draw(st.integers(0, 3)), "depth": draw(st.sampled_from([1, 2]))}
             nested["override"] = {"inherit": None, "empty": {}, "dict": None}[nested["override"]] if nested["override"] != "dict" else (draw(A.ctx) or {})
         return {"fn": fn, "binding": binding, "ctx": ctx, "presentations": pres, "mutation": mutation, "nested": nested,
                 "backend": draw(st.sampled_from(["mem", "mem", "fs"]))}
